@@ -80,6 +80,26 @@ pub fn run(line: &str) -> String {
                 }
             }
             6 => format!("B{}", c.is_expired(now) as u8),
+            7 | 8 | 9 => {
+                // the three pause INSTRUCTIONS through marginfi::entry (7 panic_pause, 8 panic_unpause, 9 permissionless
+                // unpause) on the fee-state account holding the current state; a failed instruction changes nothing
+                w.set_clock(now);
+                w.update::<FeeState>(&fs_key, |f| f.panic_state = p);
+                let (ix, signers) = match op {
+                    7 => (ixs::panic_pause(admin), vec![admin]),
+                    8 => (ixs::panic_unpause(admin), vec![admin]),
+                    _ => (ixs::panic_unpause_permissionless(), vec![]),
+                };
+                match w.exec(ix, &signers) {
+                    Ok(()) => {
+                        p = w.get::<FeeState>(&fs_key).expect("fee state").panic_state;
+                        "OK".into()
+                    }
+                    Err(ExecError::Custom(n)) => format!("E{}", n),
+                    Err(ExecError::Panic) => "PANIC".into(),
+                    Err(ExecError::Program(x)) => format!("PE:{}", x.split_whitespace().next().unwrap_or("?")),
+                }
+            }
             _ => panic!("bad op"),
         });
         if r != "OK" && !r.starts_with('B') {
